@@ -15,7 +15,7 @@ that produced the file is the failing input).
 Use:  t = WalkTie(ctx); t.offer(case, res) for every judged file (res = c05spec.walk / h5spec.walk result); t.finish() ->
 (violations, coverage);  run_walk(ctx, files) does the three steps for a list of (case, res).
 """
-import collections, concurrent.futures as cf, re
+import collections, concurrent.futures as cf, random, re
 import vlib
 from props import c05spec
 
@@ -178,6 +178,7 @@ def compare(py, cq):
 class WalkTie:
     def __init__(self, ctx):
         self.ctx = ctx
+        self.rng = random.Random((getattr(ctx, "seed", 0) or 0) ^ 0xC05)     # private: the other ties' samples do not move
         q = ctx.tier == "quick"
         self.maxsize = 16000 if q else 120000          # bytes per file handed to Coq
         self.budget = 300000 if q else 6000000         # bytes in total
@@ -199,7 +200,7 @@ class WalkTie:
             return
         key = (res["sb"].get("version"), frozenset(kinds), frozenset(t for t, _, _ in res["deviations"]), bool(res["errors"]))
         extra = self.classes[key] >= self.per_class
-        if extra and self.ctx.rng.random() > 0.04:
+        if extra and self.rng.random() > 0.04:
             return
         if self.used + res["size"] > self.budget:
             self.over_budget += 1
